@@ -195,6 +195,11 @@ pub fn run_history_at(tr: &mut Trace, c: &Conc, f: &TestFile, with_idx: bool, co
 }
 
 fn drive_shapes<T: std::io::Read + std::io::Seek>(tr: &mut Trace, c: &Conc, f: &TestFile, mut rdr: ShapeReader<T>, calls: &[Call]) {
+    // every other history goes through the typed entry points (iter_shapes_as::<S>, read_nth_shape_as::<S>)
+    let typed = calls.len() % 2 == 1 && f.t != 0;
+    if typed {
+        return crate::for_type!(f.t, S, { drive_shapes_typed::<T, S>(tr, c, f, rdr, calls) });
+    }
     for call in calls {
         let ev = guarded(|| match call {
             Call::Iter(lim) => {
@@ -224,6 +229,68 @@ fn drive_shapes<T: std::io::Read + std::io::Seek>(tr: &mut Trace, c: &Conc, f: &
                 let res = match rdr.read_nth_shape(*i) {
                     None => -1,
                     Some(Ok(s)) => shape_index(c, f, &s),
+                    Some(Err(e)) => errcode(&e),
+                };
+                json!({"ev": "nth", "i": i, "res": res})
+            }
+            Call::Seek(k) => {
+                let res = match rdr.seek(*k) {
+                    Ok(()) => 0,
+                    Err(e) => errcode(&e),
+                };
+                json!({"ev": "seek", "k": k, "res": res})
+            }
+            Call::Count => {
+                let res = match rdr.shape_count() {
+                    Ok(n) => n as i64,
+                    Err(e) => errcode(&e),
+                };
+                json!({"ev": "count", "res": res})
+            }
+        });
+        match ev {
+            Ok(e) => tr.emit(e),
+            Err(p) => {
+                tr.emit(json!({"ev": "panic", "msg": p}));
+                return;
+            }
+        }
+    }
+}
+
+fn drive_shapes_typed<T: std::io::Read + std::io::Seek, S: shapefile::ReadableShape>(tr: &mut Trace, c: &Conc, f: &TestFile, mut rdr: ShapeReader<T>, calls: &[Call])
+where
+    Shape: From<S>,
+{
+    for call in calls {
+        let ev = guarded(|| match call {
+            Call::Iter(lim) => {
+                let mut items = vec![];
+                let mut hints = vec![];
+                let mut ended = false;
+                let mut err = String::new();
+                let mut it = rdr.iter_shapes_as::<S>();
+                for _ in 0..*lim {
+                    let (lo, hi) = it.size_hint();
+                    hints.push(json!([lo, hi.map(|x| x as i64).unwrap_or(-1)]));
+                    match it.next() {
+                        Some(Ok(s)) => items.push(shape_index(c, f, &Shape::from(s))),
+                        Some(Err(e)) => {
+                            err = err_json(&e)["err"].as_str().unwrap().to_string();
+                            break;
+                        }
+                        None => {
+                            ended = true;
+                            break;
+                        }
+                    }
+                }
+                json!({"ev": "iter", "lim": lim, "items": items, "rows": items, "ended": ended, "err": err, "hints": hints})
+            }
+            Call::Nth(i) => {
+                let res = match rdr.read_nth_shape_as::<S>(*i) {
+                    None => -1,
+                    Some(Ok(s)) => shape_index(c, f, &Shape::from(s)),
                     Some(Err(e)) => errcode(&e),
                 };
                 json!({"ev": "nth", "i": i, "res": res})
